@@ -9,6 +9,8 @@ import (
 	"go/token"
 	"go/types"
 
+	"golang.org/x/tools/go/cfg"
+
 	"lachk/core"
 )
 
@@ -18,15 +20,127 @@ func c10Resolver(f *core.FuncInfo) func(ast.Expr) ast.Expr {
 }
 
 // c10Iter views a for/range statement of f as an iteration over a collection (nil for other loops).
+// Besides the forms core.IterationOf knows, the counted loop whose bound is defined next to the index
+// (`for i, n := 0, len(C); i < n; i++`) is accepted.
 func c10Iter(f *core.FuncInfo, loop ast.Stmt) *core.Iteration {
 	if loop == nil {
 		return nil
 	}
-	it, ok := core.IterationOf(f, loop, c10Resolver(f))
-	if !ok {
+	if it, ok := core.IterationOf(f, loop, c10Resolver(f)); ok {
+		return it
+	}
+	fs, ok := loop.(*ast.ForStmt)
+	if !ok || fs.Cond == nil {
 		return nil
 	}
-	return it
+	as, ok := fs.Init.(*ast.AssignStmt)
+	if !ok || as.Tok != token.DEFINE || len(as.Lhs) != len(as.Rhs) || len(as.Lhs) < 2 {
+		return nil
+	}
+	cm, ok := core.NormCmp(core.Fact{Expr: fs.Cond, Truth: true})
+	if !ok || cm.R == nil {
+		return nil
+	}
+	iv := varOf(f, cm.L)
+	for i, l := range as.Lhs {
+		if iv == nil || varOf(f, l) != iv {
+			continue
+		}
+		// the same loop with only the index in its init clause; the other variables defined there are
+		// single-definition locals the resolver looks through
+		cp := *fs
+		cp.Init = &ast.AssignStmt{Lhs: []ast.Expr{l}, TokPos: as.TokPos, Tok: as.Tok, Rhs: []ast.Expr{as.Rhs[i]}}
+		it, ok := core.IterationOf(f, &cp, c10Resolver(f))
+		if !ok {
+			return nil
+		}
+		it.Stmt = loop
+		it.Head, it.Done = f.LoopOf(loop)
+		it.Complete = false
+		if it.Head != nil && it.Done != nil {
+			n := 0
+			for _, b := range f.CFG().Blocks {
+				if !b.Live {
+					continue
+				}
+				for _, sc := range b.Succs {
+					if sc == it.Done {
+						n++
+						if b != it.Head {
+							n += 100
+						}
+					}
+				}
+			}
+			it.Complete = n == 1
+		}
+		return it
+	}
+	return nil
+}
+
+// c10InLoop: the point belongs to the (natural) loop of the statement: the loop head dominates it and
+// it can get back to the head without leaving — decided on the CFG, so a statement that an inlined
+// view brought in from a helper is located correctly (its source position is outside the loop's text).
+func c10InLoop(f *core.FuncInfo, loop ast.Stmt, pt core.Point) bool {
+	head, _ := f.LoopOf(loop)
+	if head == nil || !pt.Valid() {
+		return false
+	}
+	if pt.B == head {
+		return true
+	}
+	if ok, _ := mustPassBlockBefore(f, head, pt); !ok {
+		return false
+	}
+	latch := map[*cfg.Block]bool{}
+	for _, b := range f.CFG().Blocks {
+		if !b.Live || b == head {
+			continue
+		}
+		for _, sc := range b.Succs {
+			if sc == head {
+				if ok, _ := mustPassBlockBefore(f, head, blockEntry(b)); ok {
+					latch[b] = true
+				}
+			}
+		}
+	}
+	if latch[pt.B] {
+		return true
+	}
+	_, found := core.PathQuery{F: f, From: pt, FromAfter: true, TargetBlock: func(b *cfg.Block) bool { return latch[b] },
+		AvoidEdge: func(b *cfg.Block, s int) bool { return b.Succs[s] == head }}.Find()
+	return found
+}
+
+// c10LoopOfPoint returns the innermost for/range statement of f's own body whose loop contains pt.
+func c10LoopOfPoint(f *core.FuncInfo, pt core.Point) ast.Stmt {
+	var in []ast.Stmt
+	f.InspectOwn(func(n ast.Node) bool {
+		switch s := n.(type) {
+		case *ast.ForStmt, *ast.RangeStmt:
+			if c10InLoop(f, s.(ast.Stmt), pt) {
+				in = append(in, s.(ast.Stmt))
+			}
+		}
+		return true
+	})
+	var best ast.Stmt
+	bestDepth := -1
+	for _, l := range in {
+		head, _ := f.LoopOf(l)
+		depth := 0
+		for _, o := range in {
+			if o != l && c10InLoop(f, o, blockEntry(head)) {
+				depth++
+			}
+		}
+		if depth > bestDepth {
+			best, bestDepth = l, depth
+		}
+	}
+	return best
 }
 
 // c10Forward: the iteration visits the whole collection front to back (range over a slice value, or
@@ -67,9 +181,9 @@ func c10ElemPath(f *core.FuncInfo, it *core.Iteration, e ast.Expr, path []string
 	return c10IsElem(f, it, root)
 }
 
-// c10LoopAt returns the innermost loop of f's own body around pos, as a statement and as an iteration.
-func c10LoopAt(f *core.FuncInfo, pos token.Pos) (ast.Stmt, *core.Iteration) {
-	loop := enclosingLoop(f, pos)
+// c10LoopAt returns the innermost loop of f's own body around the point, as a statement and as an iteration.
+func c10LoopAt(f *core.FuncInfo, pt core.Point) (ast.Stmt, *core.Iteration) {
+	loop := c10LoopOfPoint(f, pt)
 	return loop, c10Iter(f, loop)
 }
 
@@ -140,7 +254,7 @@ func c10CalledOnlyFrom(p *core.Prog, g, from *core.FuncInfo) bool {
 	for _, f := range scope {
 		for _, cs := range f.Calls() {
 			if fn, ok := cs.Callee.(*types.Func); ok && (fn == g.Obj || fn.Origin() == g.Obj) {
-				if c15Root(f) != from {
+				if c10Orig(c15Root(f)) != c10Orig(from) {
 					return false
 				}
 				calls++
